@@ -249,6 +249,7 @@ def check(env, rep, tier):
         run_setter(prog, rep, "C19.2", "response::CoapResponse::set_status", "Response")
         for entry, opt in SETTERS:
             check_replace(prog, rep, entry, opt)
+        check_path_and_observe(prog, rep)
         # ---- C19.6 sibling agreement of the two coap-message impls
         groups = {}
         for b in prog.bodies.values():
@@ -284,3 +285,117 @@ def check(env, rep, tier):
             ok = bool(opt_f) and prog.types[opt_f[0]["ty"]]["s"].startswith("alloc::collections::btree::map::BTreeMap<u16,")
             rep.ob("C19.7", "WithSortedOptions", ok,
                    "Packet implements WithSortedOptions but its options container is %s, not a BTreeMap keyed by the option number" % (prog.types[opt_f[0]["ty"]]["s"] if opt_f else "missing"))
+
+
+def check_path_and_observe(prog, rep):
+    # ---- C19.5 path separator agreement
+    sp = find_body(prog, "request::CoapRequest::<Endpoint>::set_path")
+    gp = find_body(prog, "request::CoapRequest::<Endpoint>::get_path")
+    gv = find_body(prog, "request::CoapRequest::<Endpoint>::get_path_as_vec")
+    if None in (sp, gp, gv):
+        rep.missing("C19.5", "set_path / get_path / get_path_as_vec")
+    else:
+        def call_consts(b, path):
+            out = []
+            for bb in b["blocks"]:
+                t = bb["term"]
+                if t["k"] == "call" and not bb["cleanup"] and (t.get("resolved") or t.get("callee") or {}).get("path") == path:
+                    out.append(t["args"])
+            return out
+        def chase(b, op, depth=0):
+            """constant behind an operand, following single-assignment locals / reborrows"""
+            if op["k"] == "const":
+                return op
+            if op["k"] not in ("copy", "move") or depth > 4:
+                return None
+            l = op["place"]["l"]
+            defs = [st_["rv"] for bb in b["blocks"] for st_ in bb["stmts"] if st_["k"] == "assign" and st_["place"]["l"] == l and not st_["place"]["p"]]
+            if len(defs) != 1:
+                return None
+            rv = defs[0]
+            if rv["k"] == "use":
+                return chase(b, rv["op"], depth + 1)
+            if rv["k"] == "ref":
+                return chase(b, {"k": "copy", "place": {"l": rv["place"]["l"], "p": []}}, depth + 1)
+            return None
+        splits = call_consts(sp, "core::str::<impl str>::split")
+        joins = call_consts(gp, "alloc::slice::<impl [T]>::join")
+        sc = [(chase(sp, a[1]) or {}).get("int") for a in splits if len(a) > 1]
+        jc = [(chase(gp, a[1]) or {}).get("str") for a in joins if len(a) > 1]
+        rep.ob("C19.5", "separator", sc == [str(ord("/"))] and jc == ["/"],
+               "set_path splits on %s but get_path joins with %s: paths do not read back" % (sc, jc),
+               {"file": sp["span"]["f"], "line": sp["span"]["l"], "fn": sp["path"]}, sample={"rule": "C19.5", "split": sc, "join": jc})
+        # the only segment that may be skipped is an empty first one
+        I = new_interp(prog)
+        gargs = (("param", "Endpoint"),)
+        skipped = []
+
+        def loop_hook(I_, ctx, h, head, backs, exits):
+            if ctx.body["id"] != sp["id"]:
+                return
+            for b_ in backs:
+                if not b_.ghost.get(("inj", "added")):
+                    skipped.append(b_)
+        I.loop_hooks.append(loop_hook)
+        lens = []
+
+        def hook(I_, s, call, cbody):
+            if call.ctx.body["id"] != sp["id"]:
+                return
+            if call.path == "packet::Packet::add_option":
+                s.ghost[("inj", "added")] = True
+            elif call.path.endswith("Enumerate<I> as core::iter::traits::iterator::Iterator>::next"):
+                s.ghost.pop(("inj", "added"), None)
+        I.call_hooks.append(hook)
+        I.unroll_max_blocks = 0
+        I, res = run(prog, sp, I=I, gargs=gargs)
+        # on a skipping path the index is 0 and the segment is empty: both facts must be present as constants
+        ok = True
+        for s in skipped:
+            zero_idx = any(v == (0, 0) and k.startswith("item") for k, v in s.bounds.items())
+            empty = any(v == (0, 0) and k.startswith("len(") for k, v in s.bounds.items())
+            if not (zero_idx and empty):
+                ok = False
+        rep.ob("C19.5", "skip-only-leading-empty", ok,
+               "set_path can drop a path segment other than an empty first one (e.g. the empty segment of \"a//b\" or a trailing one)",
+               {"file": sp["span"]["f"], "line": sp["span"]["l"], "fn": sp["path"]}, sample={"rule": "C19.5", "skipping_paths": len(skipped)})
+    # ---- C19.4 observe flag accessors compose the C05.3 tables with set/get_observe_value
+    so = find_body(prog, "request::CoapRequest::<Endpoint>::set_observe_flag")
+    go = find_body(prog, "request::CoapRequest::<Endpoint>::get_observe_flag")
+    if so is None or go is None:
+        rep.missing("C19.4", "set_observe_flag / get_observe_flag")
+        return
+    enc = find_impl_fn(prog, "core::convert::From", "usize", "packet::ObserveOption", "from")
+    dec = find_impl_fn(prog, "core::convert::TryFrom", "packet::ObserveOption", "usize", "try_from")
+    I = new_interp(prog)
+    gargs = (("param", "Endpoint"),)
+    ev = []
+
+    def hook2(I_, s, call, cbody):
+        if cbody is not None and enc is not None and cbody["id"] == enc["id"]:
+            ev.append(("enc", call.args[0]))
+        elif call.path == "packet::Packet::set_observe_value":
+            ev.append(("set", call.args[1]))
+    I.call_hooks.append(hook2)
+    st = State()
+    subst = prog.body_subst(so, gargs)
+    args = [I.mat(st, prog.ty(so["locals"][i + 1]["ty"], subst), "a%d" % i) for i in range(so["arg_count"])]
+    I.K_ret = 1 << 30
+    I, res = run(prog, so, args=args, st=st, I=I, gargs=gargs)
+    kinds = [e[0] for e in ev]
+    ok = "enc" in kinds and "set" in kinds and all(e[1] == args[1] for e in ev if e[0] == "enc")
+    # the value handed to set_observe_value is the table's number for the flag: 0 / 1
+    vals = sorted(set(e[1].aff.c for e in ev if e[0] == "set" and isinstance(e[1], IntV) and e[1].aff.is_const()))
+    rep.ob("C19.4", "set_observe_flag", ok and vals == sorted(REG["observe"].values()),
+           "set_observe_flag does not store the registry number of the flag through set_observe_value (values %s)" % vals,
+           {"file": so["span"]["f"], "line": so["span"]["l"], "fn": so["path"]})
+    calls = set()
+    for b_ in [go] + [b2 for b2 in prog.bodies.values() if b2["path"].startswith(go["path"] + "::{closure")]:
+        for bb in b_["blocks"]:
+            t = bb["term"]
+            if t["k"] == "call" and not bb["cleanup"]:
+                r = t.get("resolved") or t.get("callee") or {}
+                calls.add(r.get("id") or r.get("path"))
+    rep.ob("C19.4", "get_observe_flag", "packet::Packet::get_observe_value" in calls or any(str(c).endswith("get_observe_value") for c in calls) and dec is not None and dec["id"] in calls,
+           "get_observe_flag does not decode get_observe_value() through the ObserveOption table",
+           {"file": go["span"]["f"], "line": go["span"]["l"], "fn": go["path"]})
